@@ -399,3 +399,91 @@ func ruleRetain(c *Ctx, ctors []string, specs []retainSpec) *RuleResult {
 }
 
 func fmtList(xs []string) string { return fmt.Sprint(xs) }
+
+// ---------------------------------------------------------------- FIELD-WRITERS
+
+type fieldWriterSpec struct {
+	pkgRel, typ, field string
+	allowed            []string
+}
+
+// ruleFieldWriters: only the allowed functions may write (the elements of, or re-assign) the given field.
+func ruleFieldWriters(c *Ctx, rule string, specs []fieldWriterSpec) *RuleResult {
+	r := &RuleResult{Rule: rule, Doc: "only the listed functions write the state slice field (elements or header), per E-EFF write summaries of every module function", MinInst: len(specs)}
+	E := c.Eff()
+	for _, sp := range specs {
+		tn := c.Pkg(sp.pkgRel).Types.Scope().Lookup(sp.typ)
+		if tn == nil {
+			failf("type %s.%s not found", sp.pkgRel, sp.typ)
+		}
+		T := tn.Type()
+		st, ok := T.Underlying().(*types.Struct)
+		if !ok {
+			failf("%s.%s is not a struct", sp.pkgRel, sp.typ)
+		}
+		hasField := false
+		for i := 0; i < st.NumFields(); i++ {
+			if st.Field(i).Name() == sp.field {
+				hasField = true
+			}
+		}
+		if !hasField {
+			failf("%s.%s has no field %s", sp.pkgRel, sp.typ, sp.field)
+		}
+		allow := map[string]bool{}
+		for _, a := range sp.allowed {
+			c.Fn(a)
+			allow[a] = true
+		}
+		writers := 0
+		for _, fn := range c.Funcs {
+			f := E.fas[fn]
+			hit := ""
+			for _, o := range f.objs {
+				if o.root < 0 || len(o.written) == 0 {
+					continue
+				}
+				// (a) the struct object itself with the field (or a sub-path) written
+				t := o.typ
+				if t != nil {
+					if p, ok := t.Underlying().(*types.Pointer); ok {
+						t = p.Elem()
+					}
+				}
+				if t != nil && types.Identical(t, T) {
+					for p := range o.written {
+						if p == sp.field || strings.HasPrefix(p, sp.field+".") {
+							hit = E.apString(fn, f.apOf(loc{o, p}))
+						}
+					}
+				}
+				// (b) the backing array reached through the field
+				if o.parent != nil && o.slot == sp.field && o.parent.typ != nil {
+					pt := o.parent.typ
+					if p, ok := pt.Underlying().(*types.Pointer); ok {
+						pt = p.Elem()
+					}
+					if types.Identical(pt, T) {
+						for p := range o.written {
+							hit = E.apString(fn, f.apOf(loc{o, p}))
+						}
+					}
+				}
+			}
+			if hit == "" {
+				continue
+			}
+			writers++
+			name := c.short(fn)
+			r.inst("%s.%s written by %s (%s)", sp.typ, sp.field, name, hit)
+			r.oblig(allow[name])
+			if !allow[name] {
+				r.find(name+":writes "+sp.typ+"."+sp.field, c.pos(fn.Pos()), "%s may write %s.%s (%s) but is not one of %v", name, sp.typ, sp.field, hit, sp.allowed)
+			}
+		}
+		if writers == 0 {
+			r.undecided("no writer of %s.%s found at all (field renamed or rule lost its anchor)", sp.typ, sp.field)
+		}
+	}
+	return r
+}
